@@ -130,6 +130,13 @@ def gen_polygon(rng, it):
         if rng.random() < 0.5:
             poly = poly[::-1].copy()
         tag = "poly:near-rectangle"
+    if it % 13 == 8 and tag in ("poly:star", "poly:lattice", "poly:selfintersecting"):
+        # a very small polygon (a building footprint in degrees, a sample plot in km):
+        # a few 1e-5 across, vertices still thousands of tolerances apart
+        ext_ = float(max(poly.max(axis=0) - poly.min(axis=0))) or 1.0
+        poly = (poly - poly.min(axis=0)) / ext_ * float(rng.choice([2e-5, 2.0 ** -16, 6e-5,
+                                                                    1.5e-4]))
+        poly = poly + np.round(rng.normal(size=2), 3) * (it % 2)
     rep = False
     if it % 5 == 0 and len(poly) >= 3 and tag != "poly:near-rectangle":
         j = int(rng.integers(0, len(poly)))
